@@ -4,7 +4,7 @@
    harness/lib.py — keep the format  "| <n> (* <name> *) =>". *)
 From Dlms Require Import Base CrcModel CrcSpec FieldsModel FieldsSpec AddrModel AddrSpec WrapperModel WrapperSpec
   TimeModel TimeSpec AxdrModel AxdrSpec AxdrBridge FrameModel FrameSpec HdlcConnModel HdlcScript HdlcLinkSpec
-  ParsersModel AssocModel AssocSpec TransportModel ClientModel Aes Gcm SecurityModel.
+  ParsersModel AssocModel AssocSpec TransportModel ClientModel Aes Gcm SecurityModel XdlmsModel XdlmsSpec.
 
 Definition v_bools (l : list bool) : V := VList (map VBool l).
 Definition as_bools (v : V) : list bool := map as_b (as_list v).
@@ -150,6 +150,61 @@ Fixpoint cl_script (c : cl) (ops : list V) : list V * cl :=
   end.
 
 Definition as_sc (v : V) : sc := (as_n (arg 0 v), as_b (arg 1 v), as_b (arg 2 v), as_b (arg 3 v), as_b (arg 4 v)).
+
+Definition v_desc (c : cosem_desc) : V := let '(i, o, a) := c in VList [VN i; VBytes o; VN a].
+Definition as_desc (v : V) : cosem_desc := (as_n (arg 0 v), as_bytes (arg 1 v), as_n (arg 2 v)).
+Definition as_iid (v : V) : iid := (as_n (arg 0 v), as_b (arg 1 v), as_b (arg 2 v)).
+Definition as_liid (v : V) : liid := (as_n (arg 0 v), as_b (arg 1 v), as_b (arg 2 v), as_b (arg 3 v), as_b (arg 4 v)).
+Definition as_optdt (v : V) : option dtime := if is_none v then None else Some (as_dtime v).
+Definition v_apdu (a : apdu) : V :=
+  match a with
+  | GetRequestNormal attr i acc => VList [VN 0; v_desc attr; v_iid i; v_opt VBytes acc]
+  | GetRequestNext b i => VList [VN 1; VN b; v_iid i]
+  | GetResponseNormal d i => VList [VN 2; VBytes d; v_iid i]
+  | GetResponseNormalWithError e i => VList [VN 3; VN e; v_iid i]
+  | GetResponseWithBlock d b i => VList [VN 4; VBytes d; VN b; v_iid i]
+  | GetResponseLastBlock d b i => VList [VN 5; VBytes d; VN b; v_iid i]
+  | GetResponseLastBlockWithError e b i => VList [VN 6; VN e; VN b; v_iid i]
+  | SetRequestNormal attr d i => VList [VN 7; v_desc attr; VBytes d; v_iid i]
+  | SetResponseNormal r i => VList [VN 8; VN r; v_iid i]
+  | ActionRequestNormal m d i => VList [VN 9; v_desc m; v_opt VBytes d; v_iid i]
+  | ActionResponseNormal st i => VList [VN 10; VN st; v_iid i]
+  | ActionResponseNormalWithData st d i => VList [VN 11; VN st; VBytes d; v_iid i]
+  | ActionResponseNormalWithError st e i => VList [VN 12; VN st; VN e; v_iid i]
+  | DataNotification l dt body => VList [VN 13; v_liid l; v_opt v_dtime dt; VBytes body]
+  | ExceptionResponse st sv c => VList [VN 14; VN st; VN sv; v_optn c]
+  | ConfirmedServiceError cls v => VList [VN 15; VN cls; VN v]
+  | InitiateRequest conf q mp ver ra dk => VList [VN 16; v_bools conf; v_optn q; VN mp; VN ver; VBool ra; v_opt VBytes dk]
+  | InitiateResponse conf mp ver q => VList [VN 17; v_bools conf; VN mp; VN ver; VN q]
+  | GlobalCipherInitiateRequest s c t => VList [VN 18; v_sc s; VN c; VBytes t]
+  | GlobalCipherInitiateResponse s c t => VList [VN 19; v_sc s; VN c; VBytes t]
+  | GeneralGlobalCipher ti s c t => VList [VN 20; VBytes ti; v_sc s; VN c; VBytes t]
+  | NoneValue => VNone
+  end.
+Definition as_apdu (v : V) : apdu :=
+  let k := as_n (arg 0 v) in
+  if k =? 0 then GetRequestNormal (as_desc (arg 1 v)) (as_iid (arg 2 v)) (as_optbytes (arg 3 v))
+  else if k =? 1 then GetRequestNext (as_n (arg 1 v)) (as_iid (arg 2 v))
+  else if k =? 2 then GetResponseNormal (as_bytes (arg 1 v)) (as_iid (arg 2 v))
+  else if k =? 3 then GetResponseNormalWithError (as_n (arg 1 v)) (as_iid (arg 2 v))
+  else if k =? 4 then GetResponseWithBlock (as_bytes (arg 1 v)) (as_n (arg 2 v)) (as_iid (arg 3 v))
+  else if k =? 5 then GetResponseLastBlock (as_bytes (arg 1 v)) (as_n (arg 2 v)) (as_iid (arg 3 v))
+  else if k =? 6 then GetResponseLastBlockWithError (as_n (arg 1 v)) (as_n (arg 2 v)) (as_iid (arg 3 v))
+  else if k =? 7 then SetRequestNormal (as_desc (arg 1 v)) (as_bytes (arg 2 v)) (as_iid (arg 3 v))
+  else if k =? 8 then SetResponseNormal (as_n (arg 1 v)) (as_iid (arg 2 v))
+  else if k =? 9 then ActionRequestNormal (as_desc (arg 1 v)) (as_optbytes (arg 2 v)) (as_iid (arg 3 v))
+  else if k =? 10 then ActionResponseNormal (as_n (arg 1 v)) (as_iid (arg 2 v))
+  else if k =? 11 then ActionResponseNormalWithData (as_n (arg 1 v)) (as_bytes (arg 2 v)) (as_iid (arg 3 v))
+  else if k =? 12 then ActionResponseNormalWithError (as_n (arg 1 v)) (as_n (arg 2 v)) (as_iid (arg 3 v))
+  else if k =? 13 then DataNotification (as_liid (arg 1 v)) (as_optdt (arg 2 v)) (as_bytes (arg 3 v))
+  else if k =? 14 then ExceptionResponse (as_n (arg 1 v)) (as_n (arg 2 v)) (as_optn (arg 3 v))
+  else if k =? 15 then ConfirmedServiceError (as_n (arg 1 v)) (as_n (arg 2 v))
+  else if k =? 16 then InitiateRequest (as_bools (arg 1 v)) (as_optn (arg 2 v)) (as_n (arg 3 v)) (as_n (arg 4 v)) (as_b (arg 5 v)) (as_optbytes (arg 6 v))
+  else if k =? 17 then InitiateResponse (as_bools (arg 1 v)) (as_n (arg 2 v)) (as_n (arg 3 v)) (as_n (arg 4 v))
+  else if k =? 18 then GlobalCipherInitiateRequest (as_sc (arg 1 v)) (as_n (arg 2 v)) (as_bytes (arg 3 v))
+  else if k =? 19 then GlobalCipherInitiateResponse (as_sc (arg 1 v)) (as_n (arg 2 v)) (as_bytes (arg 3 v))
+  else if k =? 20 then GeneralGlobalCipher (as_bytes (arg 1 v)) (as_sc (arg 2 v)) (as_n (arg 3 v)) (as_bytes (arg 4 v))
+  else NoneValue.
 
 Definition run (op : N) (a : V) : V :=
   match op with
@@ -312,5 +367,9 @@ Definition run (op : N) (a : V) : V :=
   | 165 (* spec_gcm *) =>
       let '(c, t) := gcm_encrypt (aes_encrypt (as_bytes (arg 0 a))) (as_bytes (arg 1 a)) (as_bytes (arg 2 a)) (as_bytes (arg 3 a)) in
       VList [VBytes c; VBytes t]
+  (* ---- xDLMS APDU codecs (C01) ---- *)
+  | 170 (* apdu_to_bytes *) => v_res VBytes (apdu_to_bytes (as_apdu a))
+  | 171 (* xdlms_from_bytes *) => v_res v_apdu (xdlms_from_bytes (as_bytes a))
+  | 172 (* spec_apdu *) => let x := as_apdu a in if wf_apdu x then VBytes (std_apdu x) else VNone
   | _ => bad_args
   end.
